@@ -378,8 +378,8 @@ def exec (i : Instr) (s : State) : Option State :=
   | .cdq => some (s.setW .rdx .w32 ((s.getW .rax .w32).sshiftRight 31))
   | .cqo => some (s.set .rdx ((s.get .rax).sshiftRight 63))
   | .idiv .w32 src =>
-      -- edx:eax / src, signed, truncating; #DE if src = 0 or the quotient does not fit in 32 bits
-      let dividend : Int := ((s.getW .rdx .w32 ++ s.getW .rax .w32 : BitVec 64)).toInt
+      -- edx:eax (as the signed number edx * 2^32 + eax) / src, truncating; #DE if src = 0 or the quotient does not fit
+      let dividend : Int := (s.getW .rdx .w32).toInt * 2 ^ 32 + (s.getW .rax .w32).toNat
       let d : Int := (s.getW src .w32).toInt
       if d = 0 then none else
       let q := Int.tdiv dividend d
@@ -387,7 +387,7 @@ def exec (i : Instr) (s : State) : Option State :=
       if q < -(2 ^ 31) ∨ q ≥ 2 ^ 31 then none else
       some { ((s.setW .rax .w32 (BitVec.ofInt 32 q)).setW .rdx .w32 (BitVec.ofInt 32 r)) with flagsValid := false }
   | .idiv .w64 src =>
-      let dividend : Int := ((s.get .rdx ++ s.get .rax : BitVec 128)).toInt
+      let dividend : Int := (s.get .rdx).toInt * 2 ^ 64 + (s.get .rax).toNat
       let d : Int := (s.get src).toInt
       if d = 0 then none else
       let q := Int.tdiv dividend d
@@ -396,7 +396,7 @@ def exec (i : Instr) (s : State) : Option State :=
       some { ((s.set .rax (BitVec.ofInt 64 q)).set .rdx (BitVec.ofInt 64 r)) with flagsValid := false }
   | .idiv _ _ => none
   | .div .w32 src =>
-      let dividend : Nat := ((s.getW .rdx .w32 ++ s.getW .rax .w32 : BitVec 64)).toNat
+      let dividend : Nat := (s.getW .rdx .w32).toNat * 2 ^ 32 + (s.getW .rax .w32).toNat
       let d : Nat := (s.getW src .w32).toNat
       if d = 0 then none else
       let q := dividend / d
@@ -404,7 +404,7 @@ def exec (i : Instr) (s : State) : Option State :=
       if q ≥ 2 ^ 32 then none else
       some { ((s.setW .rax .w32 (BitVec.ofNat 32 q)).setW .rdx .w32 (BitVec.ofNat 32 r)) with flagsValid := false }
   | .div .w64 src =>
-      let dividend : Nat := ((s.get .rdx ++ s.get .rax : BitVec 128)).toNat
+      let dividend : Nat := (s.get .rdx).toNat * 2 ^ 64 + (s.get .rax).toNat
       let d : Nat := (s.get src).toNat
       if d = 0 then none else
       let q := dividend / d
